@@ -116,7 +116,7 @@ def decodeOp (pool : Array Nat) (j : Json) : Option Op :=
       | Json.arr #[Json.str n, Json.num t] => (pool[t.mantissa.toNat]?).map (fun c => (n, c))
       | _ => none)
     let perm := (getArr j "perm").toList.filterMap (fun p => p.getNat?.toOption)
-    base.map (fun b => Op.subclass b (getStr j "name") (optStr j "ns") fields perm)
+    base.map (fun b => Op.subclass b (getStr j "name") (optStr j "ns") fields perm (optKw j "attrs"))
   | "append" => (cid "c").bind (fun c => (cid "t").map (fun t => Op.append c (getStr j "name") t))
   | "insert" => (cid "c").bind (fun c => (cid "t").map (fun t => Op.insert c (getNat j "idx") (getStr j "name") t))
   | "xmlattr" => (cid "src").map Op.xmlattr
